@@ -9,6 +9,37 @@ def check_hx(pid, tier, seed):
     agg = {"states": 0, "transitions": 0, "executions": 0, "generated": 0, "counters": {}, "samples": [], "legs": [], "violations": [], "collateral": {}, "known_hits": {}, "capped": False, "max_depth": 0, "outcomes": {}}
     for leg in legs:
         binary = build("hx", leg["profile"], leg["features"])
+        if leg["fam"] == "LIMIT":
+            # S-H: the 2^24 limit, scripted fill + all operation suffixes up to a depth
+            depth = leg["kw"].get("depth", 2)
+            outp = os.path.join(WORK, "out", "limit.%d.json" % os.getpid())
+            os.makedirs(os.path.dirname(outp), exist_ok=True)
+            if os.path.exists(outp):
+                os.remove(outp)
+            rc, out, err = run([binary, "limit", "--depth", str(depth), "--out", outp], timeout=7200)
+            if not os.path.exists(outp):
+                raise MachineryError("hx limit died (rc=%s): %s" % (rc, (err or "")[-800:]))
+            o = json.load(open(outp))
+            st = o["stats"]
+            agg["executions"] += st["suffixes"]
+            agg["transitions"] += st["suffixes"] * (depth + 2)
+            agg["states"] += st["suffixes"]
+            for k in ("overflow_panics",):
+                agg["counters"][k] = agg["counters"].get(k, 0) + st[k]
+            agg["counters"]["limit_reuses_at_2^24"] = st["reuses_at_limit"]
+            agg["legs"].append({"scenario": "S-H/2^24-limit", "config": "%s[%s]" % (leg["profile"], ",".join(leg["features"])), "initial_capacities": ["2^24-1", "2^24", "0 (through growth)"], "suffix_depth": depth,
+                                "worlds_filled_to_the_limit": st["worlds_built"], "entities_created": st["entities_created"], "unique_states": st["suffixes"], "transitions": st["suffixes"] * (depth + 2), "capped": False, "wall_s": round(o["wall_s"], 1)})
+            for s in st["samples"][:1]:
+                agg["samples"].append({"scenario": "S-H/2^24-limit", "history": ["fill to 2^24", "Create (must panic)", "CreateWithin (must refuse)"] + s})
+            for v in o["violations"]:
+                rec = dict(v, scenario={"name": "S-H/2^24-limit", "depth": depth}, config="limit", profile=leg["profile"], features=list(leg["features"]), history=None, engine="hx-limit", extra={"depth": depth})
+                if counts is None or any(t in counts for t in v["prop"].split(",")):
+                    agg["violations"].append(rec)
+                else:
+                    key = "%s:%s" % (v["prop"], v["oracle"])
+                    agg["collateral"][key] = agg["collateral"].get(key, 0) + 1
+            log("%s limit leg: %d suffixes, %.1fs" % (pid, st["suffixes"], o["wall_s"]))
+            continue
         fam = hxrun.FAMILIES[leg["fam"]]
         kw = dict(leg["kw"])
         if leg["fam"] == "SC" and "32_components" in leg["features"]:
@@ -46,7 +77,7 @@ def check_hx(pid, tier, seed):
                 if v["prop"] == "HX":
                     raise MachineryError("harness failure in %s: %s\nhistory: %s" % (sc["name"], v["msg"], json.dumps(v["history"])))
                 rec = dict(v, scenario=sc, config=config, profile=leg["profile"], features=list(leg["features"]))
-                if counts is None or v["prop"] in counts:
+                if counts is None or any(t in counts for t in v["prop"].split(",")):
                     agg["violations"].append(rec)
                 else:
                     key = "%s:%s" % (v["prop"], v["oracle"])
@@ -132,6 +163,12 @@ def cmd_check(pid, tier):
 
 def cmd_replay(path):
     rp = json.load(open(path))
+    if rp.get("engine") == "hx-limit":
+        binary = build("hx", rp["profile"], tuple(rp.get("features") or ()))
+        outp = os.path.join(WORK, "out", "limit-replay.json")
+        rc, out, err = run([binary, "limit", "--depth", str((rp.get("extra") or {}).get("depth", 2)), "--out", outp], timeout=7200)
+        print(open(outp).read() if os.path.exists(outp) else err)
+        return 1 if rc != 0 else 0
     if rp.get("engine", "hx") == "hx":
         binary = build("hx", rp["profile"], tuple(rp.get("features") or ()))
         rc, out, err = hxrun.replay_once(binary, rp["scenario"], rp["history"])
